@@ -322,6 +322,9 @@ func hasShorthandSelfRef(s *spec.Spec) bool {
 		if n.Kind == spec.KObject && len(n.Props) == 1 && n.Props[0].Type.Kind == spec.KRef && n.Props[0].Type.Namespace == "" {
 			next[n.ID] = n.Props[0].Type.RefID
 		}
+		if n.Kind == spec.KObject && len(n.Props) == 1 && n.Props[0].Type.Kind == spec.KObject {
+			next[n.ID] = n.Props[0].Type.ID // an object written in place
+		}
 	})
 	for start := range next {
 		at := start
